@@ -1,4 +1,5 @@
 import GodiModel.Kahn
 import GodiModel.Dfs
 import GodiModel.Graph
+import GodiModel.Conc
 import GodiModel.Spec.Digraph
